@@ -68,20 +68,35 @@ def strip_comments(src: str) -> str:
     return "".join(out)
 
 
+def registered_files() -> List[str]:
+    """Lean sources that are part of the library (imported by the root TorchDataVerif.lean) plus the driver entry
+    files.  Files on disk that are not registered (work in progress) are neither built nor audited."""
+    files = [os.path.join(PROJECT, "TorchDataVerif.lean")]
+    try:
+        for line in open(files[0]):
+            m = re.match(r"\s*import\s+(TorchDataVerif[\w.]*)", line)
+            if m:
+                files.append(os.path.join(PROJECT, m.group(1).replace(".", "/") + ".lean"))
+    except OSError:
+        pass
+    main = os.path.join(PROJECT, "Main")
+    if os.path.isdir(main):
+        files += [os.path.join(main, f) for f in sorted(os.listdir(main)) if f.endswith(".lean")]
+    return files
+
+
 def scan() -> List[str]:
-    """Forbidden tokens outside comments in every .lean file of the project (string literals
-    containing the words are tolerated only in Driver files)."""
+    """Forbidden tokens outside comments in every registered .lean file of the project."""
     hits = []
-    for root, dirs, files in os.walk(PROJECT):
-        dirs[:] = [d for d in dirs if d not in (".lake", ".git")]
-        for fn in files:
-            if not fn.endswith(".lean"):
-                continue
-            path = os.path.join(root, fn)
+    for path in registered_files():
+        try:
             src = strip_comments(open(path).read())
-            for ln, line in enumerate(src.split("\n"), 1):
-                if FORBIDDEN.search(line):
-                    hits.append(f"{os.path.relpath(path, PROJECT)}:{ln}: {line.strip()[:120]}")
+        except OSError:
+            hits.append(f"{os.path.relpath(path, PROJECT)}: registered module is missing")
+            continue
+        for ln, line in enumerate(src.split("\n"), 1):
+            if FORBIDDEN.search(line):
+                hits.append(f"{os.path.relpath(path, PROJECT)}:{ln}: {line.strip()[:120]}")
     return hits
 
 
